@@ -81,4 +81,13 @@ MODULES = {
         dict(py='NCCHReader.__init__', coq='region_offset', expr_of='offset', args=[('starting_unit', INT)], ret=INT),
         dict(py='NCCHReader.__init__', coq='region_size', expr_of='size', args=[('units', INT)], ret=INT),
     ]),
+    'cia': dict(file='pyctr/type/cia.py', imports=['util'], extfuncs={'roundup': ('roundup', [INT, INT], INT, False)}, kernels=[
+        dict(py='CIAReader.__init__', coq='cia_cert_chain_offset', expr_of='cert_chain_offset', args=[('archive_header_size', INT)], ret=INT),
+        dict(py='CIAReader.__init__', coq='cia_ticket_offset', expr_of='ticket_offset', args=[('cert_chain_offset', INT), ('cert_chain_size', INT)], ret=INT),
+        dict(py='CIAReader.__init__', coq='cia_tmd_offset', expr_of='tmd_offset', args=[('ticket_offset', INT), ('ticket_size', INT)], ret=INT),
+        dict(py='CIAReader.__init__', coq='cia_content_offset', expr_of='content_offset', args=[('tmd_offset', INT), ('tmd_size', INT)], ret=INT),
+        dict(py='CIAReader.__init__', coq='cia_meta_offset', expr_of='meta_offset', args=[('content_offset', INT), ('content_size', INT)], ret=INT),
+        dict(py='CIAReader.__init__', coq='cia_content_iv', expr_of='iv', args=[('record_cindex', INT)], ret=SEQ,
+             rename={'record.cindex': 'record_cindex'}),
+    ]),
 }
